@@ -66,6 +66,8 @@ def classify(problem):
         return 'existing-file-changed'
     if 'written again' in p:
         return 'path-written-twice'
+    if 'validate of a healthy archive' in p or 'validate panics' in p:
+        return 'validate-false-alarm'
     if 'were reused' in p:
         return 'resume-does-not-reuse-entries'
     if 'unchanged tree wrote block' in p or 'different addresses than in the previous' in p:
@@ -106,6 +108,8 @@ def reproduced(kind, out, bad):
         return bool((not out.get('backup_ok')) or out.get('stat_errors') or out.get('backup_errors'))
     if kind in ('existing-file-changed', 'path-written-twice'):
         return any(o[0] == 'rewrite' for o in out.get('ops', []))
+    if kind == 'validate-false-alarm':
+        return True
     if kind == 'resume-does-not-reuse-entries':
         return True      # decided by BackupStats.unmodified_files of the follow-up run in the model; native driver shows the stats
     if kind == 'unchanged-tree-stored-again':
